@@ -82,6 +82,7 @@ def _norm(e: ast.AST, path_txt: str) -> str:
 
 def run(ctx: Ctx) -> int:
     init = ctx.func("_util:Path.__init__")
+    ctx.expect_locals(init, ["abs_path", "mode", "path", "cwd", "pdir", "ppdir"])
     g = ctx.cfg(init)
 
     # ---------------- C19.a ---------------------------------------------------
@@ -112,6 +113,7 @@ def run(ctx: Ctx) -> int:
 
     # ---------------- C19.b ---------------------------------------------------
     cm = ctx.func("_util:Path._check_mode")
+    ctx.expect_locals(cm, ["mode", "flag", "count"])
     alpha = None
     for c in calls_in(cm):
         if call_leaf(c) == "set" and c.args and const_str(c.args[0]) and len(const_str(c.args[0])) > 5:
